@@ -33,24 +33,48 @@ class RepList:
     def __init__(self, items, n):
         self.items, self.n = items, n
 
+    def z_val(self, world):
+        f = world.uf_raw(f"replist{len(self.items)}", [Val] * (len(self.items) + 1), Val)
+        return f(*[world.to_val(x) for x in self.items], world.to_val(Sym(self.n, "int")))
+
 
 class SymRange:
-    def __init__(self, n):
-        self.n = n  # z3 int expr
+    def __init__(self, n, start=0):
+        self.n = n  # z3 int expr: number of iterations (may be <= 0: empty)
+        self.start = start
+
+    def z_val(self, world):
+        f = world.uf_raw("symrange", [Val, Val], Val)
+        return f(world.to_val(Sym(self.n, "int")), world.to_val(self.start))
 
 
 class SymSeq:
-    """Sequence of symbolic length (only its length is tracked)."""
+    """Sequence of symbolic length: its length and an (uninterpreted) description of its content are tracked."""
 
-    def __init__(self, n):
+    _zpy = True
+
+    def __init__(self, n, desc=None):
         self.n = z3.simplify(n) if not isinstance(n, int) else z3.IntVal(n)
+        self.desc = desc  # Sym val or None
 
-    def append(self, x):
+    def z_val(self, world):
+        f = world.uf_raw("symseq", [Val, Val], Val)
+        return f(world.to_val(Sym(self.n, "int")), world.to_val(self.desc))
+
+    def append(self, it, x):
         self.n = z3.simplify(self.n + 1)
+        self.desc = it.w.uf("seq.append", [self.desc, x], "val")
 
-    def extend(self, xs):
+    def extend(self, it, xs):
         k = xs.n if isinstance(xs, SymSeq) else len(xs)
         self.n = z3.simplify(self.n + k)
+        self.desc = it.w.uf("seq.extend", [self.desc, xs], "val")
+
+    def z_len(self, it):
+        return Sym(self.n, "int")
+
+    def z_getitem(self, it, idx):
+        return it.w.uf("seq.getitem", [self.desc, Sym(self.n, "int"), idx], "val")
 
 
 class LoopSpec:
@@ -250,7 +274,7 @@ class Interp:
             if a is not None:
                 return self.eval(a, Env(c.module))
             raise PyRaise("AttributeError", attr)
-        if isinstance(base, (str, list, tuple, dict, set, int, float, SymSeq)):
+        if isinstance(base, (str, list, tuple, dict, set, int, float, SymSeq)) or hasattr(base, "_zpy"):
             return PyMethod(base, attr)
         if isinstance(base, BoundMethod) or isinstance(base, Func):
             raise OutsideSubset(f"attribute {attr} of function")
@@ -544,7 +568,7 @@ class Interp:
         g = node.generators[0]
         it = self.eval(g.iter, env)
         if isinstance(it, SymRange) and not g.ifs:
-            return SymSeq(z3.If(it.n > 0, it.n, 0))
+            return SymSeq(z3.If(it.n > 0, it.n, 0), self.w.uf(f"comp:{_srchash(node)}", self.read_values(node, env), "val"))
         seq = self.concrete_iter(it)
         if seq is None:
             reads = self.read_values(node, env)
@@ -654,7 +678,7 @@ class Interp:
             if op is ast.Add:
                 nl = l.n if isinstance(l, SymSeq) else len(l)
                 nr = r.n if isinstance(r, SymSeq) else len(r)
-                return SymSeq(nl + nr)
+                return SymSeq(nl + nr, self.w.uf("seq.concat", [l.desc if isinstance(l, SymSeq) else l, r.desc if isinstance(r, SymSeq) else r], "val"))
             raise OutsideSubset("arithmetic on a symbolic-length sequence")
         if isinstance(l, Vec) or isinstance(r, Vec):
             if isinstance(l, Vec) and isinstance(r, Vec):
@@ -1008,11 +1032,14 @@ class Interp:
                 i = self.w.fresh(f"{s.target.id}@{tag}", "int")
                 self.p.pc.append(z3.And(i.e >= 0, i.e < n))
                 self.p.pc.append(spec.inv(self, env, i.e))
-                env[s.target.id] = i
+                env[s.target.id] = Sym(z3.simplify(i.e + it.start), "int") if it.start else i
                 try:
                     self.exec_block(s.body, env)
-                except (_Break, _Continue):
-                    raise OutsideSubset("break/continue inside a loop with an invariant")
+                except _Break:
+                    # leaving the loop from an arbitrary iteration: continue after the loop with the current state
+                    return
+                except _Continue:
+                    pass
                 self.oblige(f"invariant preserved by `for {ast.unparse(s.target)} in {ast.unparse(s.iter)}`", spec.inv(self, env, i.e + 1))
                 # after the loop
                 spec.havoc(self, env, tag + "z")
@@ -1199,9 +1226,11 @@ class PyMethod:
         self.obj, self.name = obj, name
 
     def call(self, it, args, kwargs):
-        if any(isinstance(a, (Sym, Obj)) for a in args) and not isinstance(self.obj, (list, dict, set, SymSeq)):
+        if any(isinstance(a, (Sym, Obj)) for a in args) and not isinstance(self.obj, (list, dict, set, SymSeq)) and not hasattr(self.obj, "_zpy"):
             return it.w.uf(f"meth.{self.name}", [self.obj] + list(args), "val")
         try:
+            if hasattr(self.obj, "_zpy"):
+                return getattr(self.obj, self.name)(it, *args, **kwargs)
             return getattr(self.obj, self.name)(*args, **kwargs)
         except (KeyError, IndexError, ValueError, AttributeError) as e:
             raise PyRaise(type(e).__name__, str(e)) from None
@@ -1265,6 +1294,8 @@ def _isinstance(it, args, kwargs):
 
 def _len(it, args, kwargs):
     (v,) = args
+    if hasattr(v, "z_len"):
+        return v.z_len(it)
     if isinstance(v, SymSeq):
         return Sym(v.n, "int")
     if isinstance(v, Sym) and v.meta.get("len") is not None:
@@ -1313,6 +1344,8 @@ def _abs(it, args, kwargs):
 def _range(it, args, kwargs):
     if len(args) == 1 and isinstance(args[0], Sym) and args[0].kind == "int":
         return SymRange(args[0].e)
+    if len(args) == 2 and isinstance(args[1], Sym) and args[1].kind == "int" and isinstance(args[0], int):
+        return SymRange(args[1].e - args[0], start=args[0])
     if any(isinstance(a, Sym) for a in args):
         return it.w.uf("range", list(args), "val")
     return range(*[int(a) for a in args])
